@@ -100,3 +100,16 @@ Definition is_route_target (t : target) : bool :=
 (* a routed statement can only be reached under its own routing condition *)
 Definition routing_ok (a : gacc) : Prop :=
   forall env, geval env (g_guard a) = true -> route_cond env (g_target a) = true.
+
+Fixpoint gexp_eqb (a b : gexp) : bool :=
+  match a, b with
+  | GTrue, GTrue => true
+  | GAtom s, GAtom t => String.eqb s t
+  | GNot x, GNot y => gexp_eqb x y
+  | GAnd x1 x2, GAnd y1 y2 | GOr x1 x2, GOr y1 y2 => gexp_eqb x1 y1 && gexp_eqb x2 y2
+  | _, _ => false
+  end.
+
+(* every required condition occurs (syntactically, after the translator's canonical rendering) in the list *)
+Definition all_present (required l : list gexp) : bool :=
+  forallb (fun r => existsb (gexp_eqb r) l) required.
